@@ -80,6 +80,8 @@ func main() {
 			genC16(rng, *n, *tier)
 		case "C17":
 			genC17(rng, *n, *tier)
+		case "C18":
+			genC18(rng, *n, *tier)
 		case "C19":
 			genC19(rng, *n, *tier)
 		case "C20":
